@@ -49,6 +49,8 @@ class UidListCtx:
             ex.st.ghost['uidl.old_records'] = recs
             ex.st.ghost['uidl.old_next'] = VInt(_t(nxt))
             ex.st.ghost['uidl.rid'] = uidl
+            ex.st.ghost['uidl.news_at_open'] = len(ex.st.ghost.get('new_records', []))
+            ex.st.ghost['uidl.held'] = True
             ex.st.events.append('uidlist.open')
             if self.on_enter is not None:
                 import ast as _ast
@@ -57,6 +59,7 @@ class UidListCtx:
                 ex.assign(item.optional_vars, uidl, frame)
             return
         uidl = ex.st.ghost['uidl.rid']
+        ex.st.ghost['uidl.held'] = False
         recs = _MapView(ex.st.store[uidl.rid]['_records'])
         nxt = VInt(_t(ex.st.store[uidl.rid]['next_uid']))
         old = _MapView(ex.st.ghost['uidl.old_records'])
@@ -71,9 +74,17 @@ class UidListCtx:
             ex.oblige(f'{name}/uidlist_written/no_recorded_uid_is_dropped_or_given_to_another_message',
                       _b(forall(lambda u: implies(old.has(u) & ~VBool(drop(_t(u))), recs.has(u) & (recs[u] == old[u])) &
                                 implies(old.has(u) & recs.has(u), recs[u] == old[u]), sort=INT)))
-        ex.st.ghost['uidl.final_records'] = ex.st.store[uidl.rid]['_records']
-        ex.st.ghost['uidl.final_next'] = nxt
-        ex.st.events.append('uidlist.written')
+        untouched = ex.st.store[uidl.rid]['_records'] is ex.st.ghost['uidl.old_records'] and \
+            z3.eq(_t(ex.st.store[uidl.rid]['next_uid']), _t(ex.st.ghost['uidl.old_next']))
+        adds = len(ex.st.ghost.get('new_records', [])) > ex.st.ghost.get('uidl.news_at_open', 0)
+        if adds or 'uidl.final_records' not in ex.st.ghost:
+            # the facts about "the list a record was added to" are those of the context that added it
+            ex.st.ghost['uidl.final_records'] = ex.st.store[uidl.rid]['_records']
+            ex.st.ghost['uidl.final_next'] = nxt
+            ex.st.ghost['uidl.add_old_next'] = oldn
+        if not untouched:
+            # FileWriteable: the file is rewritten only when the object was touched
+            ex.st.events.append('uidlist.written')
 
 
 class _MapView:
@@ -121,10 +132,19 @@ def _noop_ctx(ex, frame, item, phase):
     return None
 
 
+def _while_the_list_is_held(ex, what):
+    """a file may appear in (or the directory be listed for) a maildir only while that mailbox's UID list is locked: between
+    the appearance of a file and the writing of its record no other session may adopt it (reset) or, between a directory
+    listing and the pruning of records, no other session may add one (cleanup)"""
+    ex.oblige(f'{ex.c.name}/{what}/only_while_the_uid_list_is_locked', z3.BoolVal(bool(ex.st.ghost.get('uidl.held', False))))
+
+
 def _opaque(sort, name, event=None):
     def model(ex, frame, e, base=None):
         ex.eval_args(e, frame)
         if event:
+            if event == 'maildir.add':
+                _while_the_list_is_held(ex, 'file_appears')
             ex.st.events.append(event)
         return sort.fresh(name)
     return model
@@ -152,8 +172,9 @@ def _new_uid_facts(s):
         return VBool(False)
     r, u = news[0]
     final = _MapView(st.ghost['uidl.final_records'])
-    return (VInt(_t(u)) == st.ghost['uidl.old_next']) & final.has(VInt(_t(u))) & VBool(final.m.at(VInt(_t(u))).t == r.t) & \
-        (st.ghost['uidl.final_next'] == st.ghost['uidl.old_next'] + 1)
+    oldn = st.ghost.get('uidl.add_old_next', st.ghost['uidl.old_next'])
+    return (VInt(_t(u)) == oldn) & final.has(VInt(_t(u))) & VBool(final.m.at(VInt(_t(u))).t == r.t) & \
+        (st.ghost['uidl.final_next'] == oldn + 1)
 
 
 def _ghost0(st, sc=None):
@@ -222,6 +243,7 @@ def _move_message(ex, frame, e, base=None):
         raise PyRaise(KeyError)
     if k == 2:
         raise PyRaise(FileNotFoundError)
+    _while_the_list_is_held(ex, 'file_appears')
     ex.st.events.append('maildir.add')
     return Str.fresh('new_filename')
 
@@ -297,6 +319,7 @@ KeysS = MapS(Str, Str)
 
 
 def _get_keys(ex, frame, e, base=None):
+    _while_the_list_is_held(ex, 'directory_listing')
     m = KeysS.fresh('keys')
     return m
 
